@@ -5,7 +5,7 @@ from .. import build, pbt, tool, findings
 
 RULE = ("Hypothesis-generated assignments: for a drawn (backend, key), each of the three sources (config.toml in kebab- or snake-case, --config, "
         "#[diplomat::config] on a top-level struct / mod / impl) independently sets the shared key, the key scoped to this backend, and/or the key scoped to "
-        "another backend, each to a distinct value; one run in four names the target by its other accepted command-line spelling (py-nanobind, cpp2, kotlin2, ...). Oracle: a reference precedence model picks the effective value; the output directory must be byte-identical "
+        "another backend, each to a distinct value; half of the cases also set one other key of the backend once, in one source (a bystander that must keep its value); one run in four names the target by its other accepted command-line spelling (py-nanobind, cpp2, kotlin2, ...). Oracle: a reference precedence model picks the effective value; the output directory must be byte-identical "
         "to the canonical run that passes only that value with --config, and for lib_name / kotlin.domain the value is additionally observed directly "
         "(Kotlin package path and Native.load(\"...\"), nanobind <lib>_ext.cpp). A case = one assignment. Non-trivial: >= 2 sources set a relevant key with different values. "
         "Distinct = distinct (backend, key, assignment).")
@@ -89,11 +89,17 @@ def cases(draw):
     other_lang = draw(st.sampled_from(others))
     style = {"kebab": draw(st.booleans()), "attr_on": draw(st.sampled_from(["struct", "mod", "impl"])), "attr_quoted": draw(st.booleans()),
              "one_attr": draw(st.booleans())}
+    # a bystander: one more key of this backend, set once in one source; it must keep its value whatever happens to `key`
+    bystander = None
+    others2 = [k for k in sorted(KEYS) if k != key and backend in KEYS[k]["backends"] and not (KEYS[k].get("needs_cb") and not info.get("needs_cb"))]
+    if others2 and draw(st.booleans()):
+        k2 = draw(st.sampled_from(others2))
+        bystander = {"key": k2, "source": draw(st.sampled_from(["toml", "cli", "attr"])), "value": draw(values(KEYS[k2]["kind"]))}
     # the command line also accepts the spellings `py-nanobind` and a trailing `2` (`cpp2`, `kotlin2`): same backend, same keys
     target = backend
     if draw(st.integers(0, 3)) == 0:
         target = "py-nanobind" if backend == "nanobind" else (backend + "2" if backend in ("c", "cpp", "kotlin", "js") else backend)
-    return {"backend": backend, "target": target, "key": key, "bare": bare, "assign": assign, "other_lang": other_lang, "style": style}
+    return {"backend": backend, "target": target, "key": key, "bare": bare, "assign": assign, "other_lang": other_lang, "style": style, "bystander": bystander}
 
 
 def full_key(case, form):
@@ -145,6 +151,15 @@ def render_inputs(case, work):
         else:
             tname = parts[0].replace("_", "-") if case["style"]["kebab"] else parts[0]
             tables.setdefault(tname, []).append("%s = %s" % (name, lit(a["value"])))
+    by = case.get("bystander")
+    if by and by["source"] == "toml":
+        parts = by["key"].split(".")
+        name = parts[-1].replace("_", "-") if case["style"]["kebab"] else parts[-1]
+        if len(parts) == 1:
+            top.append("%s = %s" % (name, lit(by["value"])))
+        else:
+            tname = parts[0].replace("_", "-") if case["style"]["kebab"] else parts[0]
+            tables.setdefault(tname, []).append("%s = %s" % (name, lit(by["value"])))
     toml_text = "\n".join(top) + "\n"
     for t, lines in tables.items():
         toml_text += "\n[%s]\n%s\n" % (t, "\n".join(lines))
@@ -154,8 +169,10 @@ def render_inputs(case, work):
     cli = []
     req = dict(REQUIRED.get(backend, {}))
     for k, v in req.items():
-        if k != key:
+        if k != key and not (by and by["key"] == k):
             cli.append("%s=%s" % (k, v))
+    if by and by["source"] == "cli":
+        cli.append("%s=%s" % (by["key"], lit(by["value"]) if isinstance(by["value"], bool) else by["value"]))
     for a in case["assign"]:
         if a["source"] == "cli":
             v = a["value"]
@@ -172,6 +189,9 @@ def render_inputs(case, work):
             else:
                 val = str(v)
             attrs.append("%s = %s" % (full_key(case, a["form"]), val))
+    if by and by["source"] == "attr":
+        v = by["value"]
+        attrs.insert(0, "%s = %s" % (by["key"], lit(v) if isinstance(v, bool) else '"%s"' % v))
     src = ""
     if attrs:
         groups = [", ".join(attrs)] if case["style"]["one_attr"] else attrs
@@ -190,9 +210,12 @@ def canonical(case, work, eff):
     info = KEYS[key]
     cli = []
     req = dict(REQUIRED.get(backend, {}))
+    by = case.get("bystander")
     for k, v in req.items():
-        if k != key:
+        if k != key and not (by and by["key"] == k):
             cli.append("%s=%s" % (k, v))
+    if by:
+        cli.append("%s=%s" % (by["key"], lit(by["value"]) if isinstance(by["value"], bool) else by["value"]))
     if eff is not None:
         cli.append("%s=%s" % (key, lit(eff) if isinstance(eff, bool) else eff))
     elif key in req:
@@ -255,6 +278,8 @@ def worker(widx, seed, params):
         vals = {json.dumps(a["value"]) for a in rel}
         nt = len(srcs) >= 2 and len(vals) >= 2
         labels = ["key:" + case["key"], "backend:" + case["backend"], "sources:%d" % len(srcs)]
+        if case.get("bystander"):
+            labels.append("bystander-key:" + case["bystander"]["source"])
         if case.get("target", case["backend"]) != case["backend"]:
             labels.append("target-alias")
         if any(a["form"] == "scoped" for a in rel) and any(a["form"] == "shared" for a in rel):
